@@ -79,7 +79,8 @@ Definition civil_at (md : mode) (p : tp) : civil :=
           (snd (ord_of_dn md n))
           (sod / 3600) ((sod / 60) mod 60) (sod mod 60)
           (zh (tzone p)) (zm (tzone p))
-          (Qfloor (instant md p - epoch_instant md)).  (* time_t: whole seconds, rounded down *)
+          (Qfloor (instant md p - epoch_instant md)).  (* time_t: whole seconds since the epoch, rounded
+                                                          down on both sides of it (-1 for 23:59:59,5 of 1969-12-31) *)
 
 (* defined for valid time points only *)
 Definition civil_of (md : mode) (p : tp) : option civil :=
